@@ -23,7 +23,10 @@ INITIAL = [
     ({"a": BODY1.encode()}, "a"),
     ({"a": BODY2.encode(), "b": BODY1.encode()}, "b"),
     ({"a": BODY3.encode("utf-8")}, None),
+    # non-ASCII script names in reply lines; this store is read by a client created with debug=True (its trace prints every chunk)
+    ({"a": BODY1.encode(), "\u00e9t\u00e9 \u20ac": BODY2.encode()}, "\u00e9t\u00e9 \u20ac"),
 ]
+DEBUG_STORES = {4}
 CUTS = [1, 7, "cr1", "crl"]  # thorough adds 2 and -1 (see run)
 
 
@@ -126,7 +129,7 @@ def run_history(init_i, version, hist, prefix, seg_choice, shadow=False):
     store, active = INITIAL[init_i]
     ch = refms.Choices(prefix)
     srv = LoggingServer(ch=ch, store=store, active=active, version=version)
-    s = wire.open_session(srv)
+    s = wire.open_session(srv, debug=(init_i in DEBUG_STORES))
     sh = None
     if shadow:
         srv2 = refms.RefServer(store=dict(SHADOW_STORE), active="z", version=True)
